@@ -243,6 +243,11 @@ fn driver(prop: &str, tier: Tier) -> i32 {
     let mut machinery_error = false;
     if !clean {
         match crash {
+            Some(c) if c.detail.contains("SAFE-ABORT") => {
+                // not a verdict: a double panic aborts safely; but the search was cut short
+                eprintln!("worker stopped by a safe abort (panic in a destructor while unwinding; no undefined behaviour): machinery error, no verdict\n  {}", c.detail);
+                machinery_error = true;
+            }
             Some(c) => cases.push(c),
             None => {
                 eprintln!("worker died without reporting a case (status {status:?}): machinery error, no verdict");
